@@ -1,0 +1,129 @@
+//! Verification hooks. Compiled only with `--cfg nun_verif`; every hook is a no-op
+//! unless a harness installs a handler, so behaviour is unchanged otherwise.
+use futures::channel::mpsc::Receiver;
+use std::cell::RefCell;
+use std::sync::{Arc, RwLock};
+
+use crate::bo::Databases;
+
+thread_local! {
+    static DATA_DIR: RefCell<Option<String>> = RefCell::new(None);
+}
+
+lazy_static::lazy_static! {
+    static ref GLOBAL_DATA_DIR: RwLock<Option<String>> = RwLock::new(None);
+    static ref YIELD_HOOK: RwLock<Option<SiteHook>> = RwLock::new(None);
+    static ref CRASH_HOOK: RwLock<Option<SiteHook>> = RwLock::new(None);
+    static ref TAG_HOOK: RwLock<Option<TagHook>> = RwLock::new(None);
+    static ref CLOCK_HOOK: RwLock<Option<ClockHook>> = RwLock::new(None);
+    static ref LINK_HOOK: RwLock<Option<LinkHook>> = RwLock::new(None);
+}
+
+pub type SiteHook = Arc<dyn Fn(&str) + Send + Sync>;
+pub type TagHook = Arc<dyn Fn(&str, &str) + Send + Sync>;
+pub type ClockHook = Arc<dyn Fn() -> Option<u64> + Send + Sync>;
+pub type LinkHook = Arc<dyn Fn(LinkStart) + Send + Sync>;
+
+/// What `start_replication` was asked to do, handed to a simulated link.
+pub struct LinkStart {
+    pub peer: String,
+    pub command_receiver: Receiver<String>,
+    pub tcp_addr: String,
+    pub is_primary: bool,
+    pub dbs: Arc<Databases>,
+}
+
+/// Data directory override for the current thread (falls back to the process-wide one).
+pub fn set_data_dir(dir: Option<String>) {
+    DATA_DIR.with(|d| *d.borrow_mut() = dir);
+}
+
+pub fn set_global_data_dir(dir: Option<String>) {
+    *GLOBAL_DATA_DIR.write().unwrap() = dir;
+}
+
+pub fn data_dir() -> Option<String> {
+    let local = DATA_DIR.with(|d| d.borrow().clone());
+    match local {
+        Some(d) => Some(d),
+        None => GLOBAL_DATA_DIR.read().unwrap().clone(),
+    }
+}
+
+pub fn set_yield_hook(hook: Option<SiteHook>) {
+    *YIELD_HOOK.write().unwrap() = hook;
+}
+
+pub fn set_crash_hook(hook: Option<SiteHook>) {
+    *CRASH_HOOK.write().unwrap() = hook;
+}
+
+pub fn set_tag_hook(hook: Option<TagHook>) {
+    *TAG_HOOK.write().unwrap() = hook;
+}
+
+pub fn set_clock_hook(hook: Option<ClockHook>) {
+    *CLOCK_HOOK.write().unwrap() = hook;
+}
+
+pub fn set_link_hook(hook: Option<LinkHook>) {
+    *LINK_HOOK.write().unwrap() = hook;
+}
+
+/// Called before a lock acquisition / between two critical sections.
+pub fn yield_point(site: &str) {
+    let hook = { YIELD_HOOK.read().unwrap().clone() };
+    if let Some(h) = hook {
+        h(site);
+    }
+}
+
+/// Called after a file-system call of the persistence paths.
+pub fn crash_point(site: &str) {
+    let hook = { CRASH_HOOK.read().unwrap().clone() };
+    if let Some(h) = hook {
+        h(site);
+    }
+}
+
+/// Free-form event (e.g. which branch won an election).
+pub fn tag(name: &str, value: &str) {
+    let hook = { TAG_HOOK.read().unwrap().clone() };
+    if let Some(h) = hook {
+        h(name, value);
+    }
+}
+
+/// Virtual clock for operation ids; `None` means use the real clock.
+pub fn clock() -> Option<u64> {
+    let hook = { CLOCK_HOOK.read().unwrap().clone() };
+    match hook {
+        Some(h) => h(),
+        None => None,
+    }
+}
+
+/// Offers a replication link to the installed simulator. Returns the receiver back
+/// when no simulator is installed (the caller then dials TCP as usual).
+pub fn try_link(
+    peer: &String,
+    command_receiver: Receiver<String>,
+    tcp_addr: &String,
+    is_primary: bool,
+    dbs: &Arc<Databases>,
+) -> Option<Receiver<String>> {
+    let hook = { LINK_HOOK.read().unwrap().clone() };
+    match hook {
+        Some(h) => {
+            h(LinkStart {
+                peer: peer.clone(),
+                command_receiver,
+                tcp_addr: tcp_addr.clone(),
+                is_primary,
+                dbs: dbs.clone(),
+            });
+            None
+        }
+        None => Some(command_receiver),
+    }
+}
